@@ -25,6 +25,8 @@ Reading of the documentation (decisions; ambiguous points are NOT judged):
    argument / attribute (sel_req, atr_req length) is treated as documented caller error for any number of
    targets (it propagates), only "never raises UnsupportedTargetError with several targets" is judged.
    MuteWhenNone is judged for normal returns of None.
+ * clf.target after a sense()/listen() that found nothing is None however the call ended (returned None or raised):
+   sessions run every raising sense()/listen() after a target was captured, followed by exchange().
  * the default 'on-discover' (documented to depend on the llcp option, the code does not look at it) is not
    exercised: all callbacks are recorders.
 """
@@ -65,7 +67,7 @@ def variants(with_disc):
     return out
 
 
-ENVS = ("nothing", "tag", "peerT", "peerI", "reader", "ioerror", "unsupported")
+ENVS = ("nothing", "tag", "tagU", "peerT", "peerI", "reader", "ioerror", "unsupported")
 
 
 def grid(kmax, tmax):
@@ -98,7 +100,7 @@ def cfg_id(c):
             return c["su"][o][0]
         return "k%d%d%d" % (c["disc"][o], c["conn"][o], c["rel"][o])
     return "%s.%s.%s|b%d|%s|%s%s%d|t%d" % (ov("rdwr"), ov("llcp"), ov("card"), c["beep"], c["role"], c["env"],
-                                            c.get("ttype", "") if c["env"] == "tag" else "", c["k"], c["termAt"])
+                                            c.get("ttype", "") if c["env"] in ("tag", "tagU") else "", c["k"], c["termAt"])
 
 
 # ------------------------------------------------------------------------------------------------
@@ -118,6 +120,22 @@ class Timeshift(object):
         nfc.clf.time, nfc.dep.time, nfc.llcp.llc.time = self.saved
 
 
+class NoListen(clfdev.Nothing):
+    """a tag in the field of a device that cannot listen (reader-only device / Type B card target)"""
+
+    def __init__(self, tag):
+        self.tag = tag
+
+    def sense(self, dev, kind, target):
+        return self.tag.sense(dev, kind, target)
+
+    def command(self, dev, data, timeout):
+        return self.tag.command(dev, data, timeout)
+
+    def listen(self, dev, kind, target, timeout):
+        raise dev.ns.UnsupportedTargetError("simulated: this device cannot listen")
+
+
 TAG_TYPES = {"T1": clfdev.T1Tag, "T2": clfdev.T2Tag, "T3": clfdev.T3Tag, "T4": clfdev.T4Tag}
 
 
@@ -126,6 +144,8 @@ def make_env(name, k, ttype="T2"):
         return clfdev.Nothing()
     if name == "tag":
         return TAG_TYPES[ttype](k)
+    if name == "tagU":
+        return NoListen(TAG_TYPES[ttype](k))
     if name == "peerT":
         return clfdev.Peer("target", k)
     if name == "peerI":
@@ -162,8 +182,10 @@ class ConnectRun(object):
         self.clf.listen = self.listen
 
     def emit(self, a, o="", r=""):
+        t = self.clf.target
         self.ev.append(dict(a=a, o=o, r=r, polls=self.polls, ncb=self.ncb, led=bool(self.dev.led),
-                            field=bool(self.dev.field)))
+                            field=bool(self.dev.field),
+                            target="none" if t is None else ("remote" if isinstance(t, nfc.clf.RemoteTarget) else "local")))
 
     def cb(self, name, o, r):
         self.ncb += 1
@@ -283,7 +305,7 @@ class ConnectRun(object):
             def su_rdwr(targets):
                 self.cb("Startup", "rdwr", c["su"]["rdwr"])
                 return {"keep": targets, "drop": [], "wrong": ["106A"]}[c["su"]["rdwr"]]
-            kw["rdwr"] = {"targets": ["212F" if (c["env"] == "tag" and c.get("ttype") == "T3") else "106A"], "iterations": 1, "interval": 0.0, "on-startup": su_rdwr,
+            kw["rdwr"] = {"targets": ["212F" if (c["env"] in ("tag", "tagU") and c.get("ttype") == "T3") else "106A"], "iterations": 1, "interval": 0.0, "on-startup": su_rdwr,
                           "on-discover": recorder("Discover", "rdwr", c["disc"]),
                           "on-connect": recorder("Connect", "rdwr", c["conn"], phase_setter("presence")),
                           "on-release": release("rdwr"), "beep-on-connect": c["beep"]}
@@ -349,9 +371,10 @@ def run_connect(cfg, clock):
 # ------------------------------------------------------------------------------------------------
 # sense / listen / exchange sessions (ClfSense)
 
-KINDS = ("found", "absent", "unsupported", "invalid", "commerr")
+KINDS = ("found", "absent", "unsupported", "invalid", "commerr", "ioerror")
+LISTEN_KINDS = ("found", "none", "unsupported", "invalid", "ioerror")
 TECH = {"found": ("A", "B", "F", "D"), "absent": ("A", "B", "F", "D"), "unsupported": ("A", "B", "F", "D", "X"),
-        "invalid": ("A", "D"), "commerr": ("A", "B", "F", "D")}
+        "invalid": ("A", "D"), "commerr": ("A", "B", "F", "D"), "ioerror": ("A", "B", "F", "D")}
 
 
 class SenseEnv(clfdev.Nothing):
@@ -375,11 +398,18 @@ class SenseEnv(clfdev.Nothing):
             raise dev.ns.UnsupportedTargetError("simulated")
         if k == "commerr":
             raise dev.ns.TransmissionError("simulated")
+        if k == "ioerror":
+            raise IOError(errno.EIO, "simulated host link failure")
         return None
 
     def listen(self, dev, kind, target, timeout):
-        if self.kinds and self.kinds[0] == "found":
+        k = self.kinds[0] if self.kinds else "none"
+        if k == "found":
             return dict(brty=target.brty, sensf_res=bytes(19), tt3_cmd=b"\x06" + bytes(8))
+        if k == "unsupported" or kind == "ttb":     # no nfcpy driver can listen as a Type B target
+            raise dev.ns.UnsupportedTargetError("simulated: listen not supported for %s" % target.brty)
+        if k == "ioerror":
+            raise IOError(errno.EIO, "simulated host link failure")
         return None
 
     def command(self, dev, data, timeout):
@@ -447,6 +477,8 @@ class SenseSession(object):
                     res = "UnsupportedTargetError"
                 except ValueError:
                     res = "ValueError"
+                except IOError:
+                    res = "IOError"
                 except Exception as e:              # noqa
                     res = "raise:" + type(e).__name__
                 log = self.dev.log[n0:]
@@ -456,10 +488,26 @@ class SenseSession(object):
                 self.emit("Sense", kinds=list(kinds), iters=iters, res=res, idx=idx, muted=muted,
                           nsense=len(attempts), sent="mute-first" if first_mute else "no-mute-first")
             elif st["op"] == "listen":
-                self.envbox.kinds = (st["kind"],)
-                tf = nfc.clf.LocalTarget("212F", sensf_res=bytearray(19))
-                t = self.clf.listen(tf, 0.01)
-                self.emit("Listen", res="found" if t is not None else "none")
+                k = st["kind"]
+                self.envbox.kinds = (k,)
+                if k == "unsupported":
+                    tl = nfc.clf.LocalTarget("106B")
+                elif k == "invalid":
+                    tl = nfc.clf.LocalTarget("xxx")
+                else:
+                    tl = nfc.clf.LocalTarget("212F", sensf_res=bytearray(19))
+                try:
+                    t = self.clf.listen(tl, 0.01)
+                    res = "found" if t is not None else "none"
+                except nfc.clf.UnsupportedTargetError:
+                    res = "UnsupportedTargetError"
+                except ValueError:
+                    res = "ValueError"
+                except IOError:
+                    res = "IOError"
+                except Exception as e:              # noqa
+                    res = "raise:" + type(e).__name__
+                self.emit("Listen", kinds=[k], res=res)
             elif st["op"] == "exchange":
                 r = self.clf.exchange(bytearray(b"\x30\x00"), 0.01)
                 log = [x[0] for x in self.dev.log[n0:]]
@@ -478,7 +526,19 @@ def techs_for(kinds, rnd):
     return [rnd.choice(TECH[k]) for k in kinds]
 
 
+def capture_steps(how):
+    """steps that leave the frontend with a remote / local / no target before the call under test"""
+    if how == "remote":
+        return [dict(op="sense", kinds=["found"], techs=["A"], iters=1), dict(op="exchange")]
+    if how == "local":
+        return [dict(op="listen", kind="found"), dict(op="exchange")]
+    return []
+
+
 def sense_sessions(tier, seed, clock):
+    """every target list x iterations, each after a target was captured by an earlier sense (remote), an earlier
+    listen (local) or not at all (rotating), followed by exchange(); every way listen() can end after every kind
+    of capture, followed by exchange(); plus chains sense -> raising listen -> raising sense -> exchange"""
     rnd = random.Random(seed)
     maxlen = 3 if tier == "quick" else 4
     out = []
@@ -487,15 +547,23 @@ def sense_sessions(tier, seed, clock):
     for kinds in lists:
         for iters in ((1, 2) if tier == "quick" else (1, 2, 3)):
             n += 1
-            prev = rnd.choice(lists[1:40])
-            steps = [dict(op="sense", kinds=list(prev), techs=techs_for(prev, rnd), iters=1), dict(op="exchange"),
-                     dict(op="sense", kinds=list(kinds), techs=techs_for(kinds, rnd), iters=iters),
-                     dict(op="exchange")]
-            if n % 3 == 0:
-                steps[0:0] = [dict(op="listen", kind=rnd.choice(("found", "absent"))), dict(op="exchange")]
+            how = ("remote", "local", "none")[n % 3]
+            steps = capture_steps(how) + [dict(op="sense", kinds=list(kinds), techs=techs_for(kinds, rnd), iters=iters),
+                                          dict(op="exchange")]
             if n % 5 == 0:
-                steps += [dict(op="listen", kind=rnd.choice(("found", "absent"))), dict(op="exchange")]
-            out.append(SenseSession("s%d:%s/%d" % (n, ",".join(k[:3] for k in kinds), iters), steps, clock))
+                steps += [dict(op="listen", kind=rnd.choice(LISTEN_KINDS)), dict(op="exchange")]
+            out.append(SenseSession("s%d:%s:%s/%d" % (n, how, ",".join(k[:3] for k in kinds), iters), steps, clock))
+    for how in ("remote", "local", "none"):
+        for k in LISTEN_KINDS:
+            n += 1
+            steps = capture_steps(how) + [dict(op="listen", kind=k), dict(op="exchange")]
+            out.append(SenseSession("l%d:%s:listen-%s" % (n, how, k), steps, clock))
+            for k2 in ("unsupported", "invalid", "ioerror", "absent"):
+                n += 1
+                steps = capture_steps(how) + [dict(op="listen", kind=k), dict(op="exchange"),
+                                              dict(op="sense", kinds=[k2], techs=techs_for([k2], rnd), iters=1),
+                                              dict(op="exchange")]
+                out.append(SenseSession("l%d:%s:listen-%s,sense-%s" % (n, how, k, k2), steps, clock))
     return out, maxlen
 
 
@@ -551,7 +619,7 @@ def mc(ck, module, cfgfile, need, reach_cfg, timeout):
 W_CONNECT = ["W_RetTrue", "W_RetObj", "W_RetFalse", "W_RetNoneNoOpt", "W_TermInPresence", "W_ReleaseFalseLoops",
              "W_TagVanished", "W_PeerReleased", "W_ReaderLeft"]
 W_SENSE = ["W_Second", "W_RaiseUnsupported", "W_IgnoredUnsupported", "W_StaleDropped", "W_ValueError",
-           "W_NoneMuted", "W_ExchangeNothing"]
+           "W_NoneMuted", "W_ExchangeNothing", "W_ListenRaisedAfterCapture", "W_SenseRaisedAfterCapture"]
 
 
 def run(tier, seed):
@@ -590,7 +658,7 @@ def run(tier, seed):
     # thorough: all four for the configurations with rdwr alone)
     typed, n = [], 0
     for c in todo:
-        if c["env"] == "tag" and c["has"]["rdwr"] and c["su"]["rdwr"] == "keep":
+        if c["env"] in ("tag", "tagU") and c["has"]["rdwr"] and c["su"]["rdwr"] == "keep":
             n += 1
             one = quick or sum(1 for o in OPTS if c["has"][o]) > 1
             for tt in ((sorted(TAG_TYPES)[n % 4],) if one else sorted(TAG_TYPES)):
@@ -662,7 +730,8 @@ def run(tier, seed):
     ck.sample(dict(sense_trace=straces[7]["id"], events=[(e["a"], e["kinds"], e["res"], e["idx"], e["sent"]) for e in straces[7]["ev"]]))
     ck.sample(dict(mc_connect=dict(distinct=r1.distinct, depth=r1.depth, initial=ninit), mc_sense=dict(distinct=r2.distinct)))
     ck.assume("callbacks are recorders (defaults of the callbacks are not exercised); rdwr uses targets=['106A'], iterations=1",
-              "one environment per call: nothing | Type 1/2/3/4 tag leaving after k presence checks | NFC-DEP/LLCP peer (either "
+              "one environment per call: nothing | Type 1/2/3/4 tag leaving after k presence checks (also on a device "
+              "that cannot listen) | NFC-DEP/LLCP peer (either "
               "role) releasing after k exchanges | reader leaving after k commands | device raising IOError / "
               "UnsupportedTargetError on discovery; device errors in the middle of an activation are not injected",
               "llcp and card branches run the real nfc.dep / nfc.llcp.llc / Type3TagEmulation code against scripted "
